@@ -703,3 +703,50 @@ for _q in ('PositionIndex.build', 'PositionIndex.__init__'):
     alias('py_stringsimjoin.index.position_index.' + _q, 'py_stringsimjoin.join.jaccard_join_py.jaccard_join_py')
 alias(PSF_ + 'PositionFilter.find_candidates', PSF_ + 'PositionFilter.filter_tables')
 alias('py_stringsimjoin.join.set_sim_join.set_sim_join', 'py_stringsimjoin.join.jaccard_join_py.jaccard_join_py')
+
+
+# ----------------------------------------------------------------------------- filter constructors (C15)
+class _FilterInit(object):
+    cls_name = None
+
+    def inputs(self, case, rng, model, tier):
+        for name in ('JACCARD', 'jaccard', 'Cosine', 'DICE', 'OVERLAP', 'overlap', 'Overlap', 'EDIT_DISTANCE', 'edit_distance',
+                     'Edit_Distance', 'LEVENSHTEIN', ''):
+            for tok in ('ws', 'qgram', 'none'):
+                for t in (0, 1, 2, 0.5, 1.0, 1.5, -1):
+                    yield dict(name=name, tok=tok, t=t)
+
+    def check(self, case, a):
+        import py_stringsimjoin as ssj
+        from py_stringmatching import WhitespaceTokenizer, QgramTokenizer
+        cls = getattr(ssj, self.cls_name)
+        tok = {'ws': WhitespaceTokenizer(return_set=True), 'qgram': QgramTokenizer(qval=2), 'none': 'not a tokenizer'}[a['tok']]
+        M = a['name'].upper()
+        if M not in ('JACCARD', 'COSINE', 'DICE', 'OVERLAP', 'EDIT_DISTANCE'):
+            expect = TypeError
+        elif a['tok'] == 'none':
+            expect = TypeError
+        elif M == 'EDIT_DISTANCE' and a['tok'] != 'qgram':
+            expect = AssertionError
+        elif (M == 'EDIT_DISTANCE' and a['t'] < 0) or (M == 'OVERLAP' and a['t'] <= 0) or \
+                (M in ('JACCARD', 'COSINE', 'DICE') and not (0 < a['t'] <= 1)):
+            expect = AssertionError
+        else:
+            expect = None
+        try:
+            f = cls(tok, a['name'], a['t'])
+        except Exception as e:
+            if expect is None:
+                return '%s(%s tokenizer, %r, %r) is a valid call but raised %s: %s' % (self.cls_name, a['tok'], a['name'], a['t'], type(e).__name__, e)
+            return None if isinstance(e, expect) else '%s(%s, %r, %r): expected %s, got %s' % (
+                self.cls_name, a['tok'], a['name'], a['t'], expect.__name__, type(e).__name__)
+        if expect is not None:
+            return '%s(%s tokenizer, %r, %r) accepted an invalid argument (expected %s)' % (
+                self.cls_name, a['tok'], a['name'], a['t'], expect.__name__)
+        if f.sim_measure_type != M:
+            return 'sim_measure_type stored as %r' % (f.sim_measure_type,)
+        return None
+
+
+for _c, _m in (('SizeFilter', 'size_filter'), ('PrefixFilter', 'prefix_filter'), ('PositionFilter', 'position_filter')):
+    oracle('py_stringsimjoin.filter.%s.%s.__init__' % (_m, _c))(type(_c + 'Init', (_FilterInit,), {'cls_name': _c}))
